@@ -120,6 +120,38 @@ def uni_cases(r, qb):
     return out
 
 
+def hostile_header_lists(role):
+    """header lists only a hand-made encoder produces (pylsqpack's encoder refuses
+    them, its decoder does not): (name, list) pairs for the first header block"""
+    first = [(b":status", b"200")] if role else [(b":method", b"GET"), (b":authority", b"a")]
+    out = []
+    for n in (1, 19, 20, 4299, 4300, 4301, 5000, 10000):
+        out.append((f"cl-{n}-digits", first + [(b"content-length", b"1" * n)]))
+    out.append(("cl-5000-zeros", first + [(b"content-length", b"0" * 5000)]))
+    out.append(("cl-plus-4300", first + [(b"content-length", b"+" + b"1" * 4300)]))
+    out.append(("cl-minus-4301", first + [(b"content-length", b"-" + b"1" * 4301)]))
+    for v in (b"", b" 5", b"5 ", b"+5", b"-0", b"1_0", b"0x10", b"5\x00", "\u0665".encode(), "\uff15".encode(), b"1e3",
+              b"\xb2", b"5\n", b"\t5", b"\xd9\xa5"):
+        out.append(("cl-" + v.hex(), first + [(b"content-length", v)]))
+    out.append(("two-cl", first + [(b"content-length", b"1" * 4301), (b"content-length", b"2")]))
+    for n in (1000, 4000, 16000, 60000):
+        out.append((f"name-{n}", first + [(b"n" * n, b"v")]))
+        out.append((f"value-{n}", first + [(b"x", b"v" * n)]))
+        out.append((f"ctl-name-{n}", first + [(bytes([1]) * n, b"v")]))
+    out.append(("all-bytes-value", first + [(b"x-all", bytes(range(256)))]))
+    for b in (0x00, 0x09, 0x0A, 0x0D, 0x20, 0x7F, 0x80, 0xFF, 0x3A, 0x41):
+        out.append((f"value-{b:02x}", first + [(b"x", b"a" + bytes([b]) + b"b")]))
+        out.append((f"value-lead-{b:02x}", first + [(b"x", bytes([b]) + b"b")]))
+        out.append((f"value-trail-{b:02x}", first + [(b"x", b"b" + bytes([b]))]))
+        out.append((f"name-{b:02x}", first + [(b"x" + bytes([b]) + b"y", b"v")]))
+    out.append(("empty-name", first + [(b"", b"v")]))
+    out.append(("only-empty-name", [(b"", b"")]))
+    out.append(("te", first + [(b"transfer-encoding", b"chunked" * 1000)]))
+    out.append(("pseudo-after", first + [(b"x", b"y"), (b":path", b"/" * 5000)]))
+    out.append(("authority-huge", [(b":method", b"GET"), (b":scheme", b"https"), (b":authority", b"a" * 9000), (b":path", b"")]))
+    return out
+
+
 def deliveries_for(r, sid, b, fin, mode):
     if mode == "whole":
         return [(sid, b, fin)]
@@ -228,6 +260,31 @@ def main(tier):
             # datagrams
             for d in (b"", b"\x00", b"\x40", b"\x04abc", b"\xc0" + bytes(6), b"\xc0" + bytes(7) + b"x", bytes(100)):
                 run(batch, [new_line, f"h3.datagram {g.hx(d)}", "h3.other", f"h3.datagram {g.hx(d)}"])
+    # hand-encoded QPACK field sections (RFC 9204 literal field lines) on every header path
+    hand_cases = 0
+    for role in (0, 1):
+        ok_first = g.frame(1, qb["resp"] if role else qb["req"])
+        for lname, hl in hostile_header_lists(role):
+            blk = g.qpack_literal_block(hl)
+            only = g.qpack_literal_block(hl[-1:] if len(hl) > 1 else hl)   # the hostile field alone (trailers)
+            paths = {
+                "headers": (0, g.frame(1, blk) + g.frame(0, b"a")),
+                "trailers": (0, ok_first + g.frame(0, b"a") + g.frame(1, only)),
+                "trailers-full": (0, ok_first + g.frame(1, blk)),
+            }
+            if role:
+                paths["push-promise"] = (0, ok_first + g.frame(5, b"\x01" + blk))
+                paths["push-stream"] = (15, b"\x01\x01" + g.frame(1, blk) + g.frame(0, b"a"))
+                paths["push-stream-trailers"] = (15, b"\x01\x01" + ok_first + g.frame(1, only))
+            for pname, (sid, data) in paths.items():
+                for logging in ((0, 1) if len(data) < 3000 else (r.choice([0, 1]),)):
+                    for mode in ("whole", "random"):
+                        fin = r.random() < 0.5
+                        dl = deliveries_for(r, sid, data, fin, mode)
+                        run(batch, [f"h3.new {role} {logging} 0 {quirks}"] +
+                            [f"h3.data {s_} {g.hx(d)} {1 if f else 0}" for s_, d, f in dl])
+                        hand_cases += 1
+    ctx.notes["hand_encoded_qpack_cases"] = hand_cases
     # blocked streams and everything around them
     CTRL = bytes.fromhex("0004170150000680020000074064091040bcc0000000faceb00c")
     ENC = bytes.fromhex("3fe101c696d07abe941094cb6d0a08017d403971966e32ca98b46f")
